@@ -42,8 +42,9 @@ func init() {
 				panic(err)
 			}
 			base, file := layout.Concrete(cs.Base), layout.Concrete(cs.Lines)
+			crlf := layCRLF(cs.Lay)
 			recs[i] = c19Rec{Ev: "Case", ID: cs.ID, Lay: cs.Lay, Lines: cs.Lines, Base: cs.Base,
-				Strict: layout.Parse(base, true), Relaxed: layout.Parse(base, false), Wrapped: layout.Parse(file, false)}
+				Strict: layout.ParseEOL(base, true, crlf), Relaxed: layout.ParseEOL(base, false, crlf), Wrapped: layout.ParseEOL(file, false, crlf)}
 		})
 		for _, r := range recs {
 			out.Write(r)
